@@ -18,8 +18,10 @@ BIG_EXTENTS = [255, 256, 257, 65535, 65536, 65537]
 # independent index constructor / reader
 
 
-def build_index(dense, common):
-    """Independent constructor of an iindex from a dense array (any ndim >= 1)."""
+def build_index(dense, common, readonly=False):
+    """Independent constructor of an iindex from a dense array (any ndim >= 1).
+
+    readonly=True makes the row-id arrays read-only, like the mmap-backed arrays IndxIO.load returns."""
     import numpy
 
     from catii import iindex
@@ -32,7 +34,10 @@ def build_index(dense, common):
         for v in sorted(set(col.tolist())):
             if v == common:
                 continue
-            entries[(int(v),) + hi] = numpy.nonzero(col == v)[0].astype(numpy.uint32)
+            arr = numpy.nonzero(col == v)[0].astype(numpy.uint32)
+            if readonly:
+                arr.setflags(write=False)
+            entries[(int(v),) + hi] = arr
     return iindex(entries, int(common) if not isinstance(common, str) else common,
                   tuple(int(x) for x in dense.shape))
 
@@ -104,7 +109,8 @@ def cube_specs(draw, max_nd=3, min_nd=0, max_n=40, tails=((), (), (2,), (3,), (1
                 d["common"] = min(d["common"], 2)
     mode = draw(st.sampled_from(["inferred", "exact", "padded"]))
     pads = draw(st.lists(st.integers(1, 3), min_size=nd, max_size=nd))
-    return {"N": N, "dims": dims, "shape_mode": mode, "pads": pads}
+    return {"N": N, "dims": dims, "shape_mode": mode, "pads": pads,
+            "readonly": draw(st.integers(0, 3)) == 0}
 
 
 def fact_specs(N, dtypes=("float", "int"), max_k=3, dyadic=True):
@@ -419,7 +425,7 @@ def make_ccube(case, dense=None, commons=None):
     dense = dense_dims(case) if dense is None else dense
     commons = [d["common"] for d in case["dims"]] if commons is None else commons
     shape_arg, _ = cube_shape(case, dense)
-    idxs = [build_index(a, c) for a, c in zip(dense, commons)]
+    idxs = [build_index(a, c, readonly=bool(case.get("readonly"))) for a, c in zip(dense, commons)]
     return ccube(idxs, shape_arg), idxs
 
 
